@@ -30,6 +30,12 @@ PropInv == Len(hist) > 1 => /\ OnlyAppendModifies(LastEv.pre, LastEv.cmd, LastEv
                            /\ ReadOnly(LastEv.pre, LastEv.cmd, LastEv.post)
 \* a stored file is never lost over a whole history (C09 over sequences): ids only ever get appended while the kind stays
 NeverLost == \A i \in 2..Len(hist) : (hist[i].pre.kind \in {"cas", "dsk"} /\ hist[i].post.kind = hist[i].pre.kind) => IsPrefix(hist[i].pre.files, hist[i].post.files)
+\* ONE invocation naming the same path under two switches = two consecutive steps with the same tool / flags / files and different switches (the judge composes
+\* the table the same way, Tr_Host!AllowedSeq): what the first save created is an existing target for the second - kept as it is unless the second appends to its own kind
+SameInvocation(a, b) == a.tool = b.tool /\ a.app = b.app /\ a.named = b.named /\ a.new = b.new /\ a.srcn = b.srcn /\ a.sw # b.sw /\ "list" \notin {a.sw, b.sw}
+SamePathTwice == \A i \in 2..(Len(hist) - 1) :
+   (SameInvocation(hist[i].cmd, hist[i + 1].cmd) /\ hist[i].pre = Absent /\ hist[i].post # Absent)
+      => (hist[i + 1].post = hist[i].post \/ (hist[i + 1].cmd.app /\ Compatible(hist[i].post, hist[i + 1].cmd.sw)))
 Export == Len(hist) = Depth + 1 =>
    Serialize(ToJson([init |-> hist[1].init, cmds |-> [k \in 1..Depth |-> hist[k + 1].cmd]]) \o "\n", IOEnv.OUT_FILE,
              [format |-> "TXT", charset |-> "UTF-8", openOptions |-> <<"WRITE", "CREATE", "APPEND">>]).exitValue = 0
